@@ -44,7 +44,8 @@ class InferenceThread(BackgroundThread):
         if len(self._tick_times) == 0:
             return
         mean = statistics.mean(self._tick_times)
-        stdev = statistics.stdev(self._tick_times)
+        # `statistics.stdev` needs at least two data points.
+        stdev = statistics.stdev(self._tick_times) if len(self._tick_times) > 1 else 0.0
         self._logger.info(
             f"Step time: {mean:.3e} ± {stdev:.3e} [s] in {len(self._tick_times)} steps."
         )
